@@ -429,10 +429,12 @@ def ugrid_encoding(draw, supply=None, coords_as=None, allow_transpose=True,
         transposed = [t for t in ["face_node"] + list(supply) if draw(st.integers(0, 3)) == 0]
     edge_dim_attr = draw(st.booleans())
     edge_coords = draw(st.booleans())
-    if edge_dim_attr and "edge_node" not in supply and "edge_face" not in supply:
-        # A declared edge dimension must exist in the dataset: xarray cannot hold a dimension
-        # that no variable uses, so something has to be defined on it.
+    if edge_dim_attr and "edge_node" not in supply and "edge_face" not in supply \
+            and "face_edge" in supply:
+        # (a face-edge table needs its edges to be somewhere)
         edge_coords = True
+    # Otherwise the mesh may declare an edge dimension that nothing in the dataset uses: the
+    # dimension then exists in name only (emsarray derives the edge count from the faces).
     return {
         "names": draw(st.sampled_from(UGRID_NAMESETS)),
         "dims": draw(st.sampled_from(UGRID_DIMSETS)),
